@@ -8,7 +8,7 @@ DECIDING = ['peptacular.chem.chem_util.parse_chem_formula', 'peptacular.chem.che
             'peptacular.glycan.parse_glycan_formula']
 RULE = ('compositions over every element of the bundled table, isotope-prefixed elements, D/T and the particles e/p/n '
         'with integer counts in [-200,500] or decimals with up to 4 places; separators "", " ", "|"; hill_order both; '
-        'multisets of the 27 monosaccharides (names and synonyms) with counts in [-5,20]. Post-conditions: '
+        'multisets of the 27 monosaccharides (names and synonyms) with counts in [-5,20]; 30% of the compositions are followed at once by two siblings that differ in one small count (-1/-2, 1/2, 1/1.0 ...). Post-conditions: '
         'parse(write(c)) == c minus zeros, chem_mass(text) == chem_mass(c), parse(a+b) == parse(a)+parse(b), bracketed '
         'isotopes stay distinct, an unambiguously written glycan (exhaustive segmentation has exactly one reading) parses '
         'to its counts, glycan_comp/glycan_mass equal count-weighted sums over the independently read monosaccharide '
@@ -119,10 +119,17 @@ def gen_comp(rng, elements, isotopes, particles=True):
     return comp, kinds
 
 
-def chem_clauses(ctx, st, pt, rng, elements, isotopes):
-    comp, kinds = gen_comp(rng, elements, isotopes)
-    sep = rng.choice(['', '', ' ', '|'])
-    hill = rng.random() < 0.5
+SIBLING_COUNTS = [(-1, -2), (-2, -1), (1, 2), (2, 1), (1, 1.0), (1.0, 1), (0, 1), (1, 0), (2, -2), (1, -1), (-1, 1),
+                  (10, 100), (-1.0, -2.0), (0.5, 1.5), (12, 21)]
+
+
+def chem_clauses(ctx, st, pt, rng, elements, isotopes, fixed=None):
+    if fixed is not None:
+        comp, kinds, sep, hill = fixed
+    else:
+        comp, kinds = gen_comp(rng, elements, isotopes)
+        sep = rng.choice(['', '', ' ', '|'])
+        hill = rng.random() < 0.5
     nz = {k: v for k, v in comp.items() if v != 0}
     if sep != '' and not nz:
         return
@@ -186,6 +193,17 @@ def chem_clauses(ctx, st, pt, rng, elements, isotopes):
                 ctx.violation('bracketed-isotope-merged-with-element', {'text': joined, 'parsed': p})
             ctx.sig(('additive', sorted(kinds | kinds2), bool(set(comp) & set(comp2))), True)
     ctx.sample({'composition': comp, 'sep': sep, 'hill_order': hill, 'text': text})
+    if fixed is None and comp and rng.random() < 0.3:
+        # sibling compositions, written back to back in the same process: same keys in the same order, same options, one
+        # count differing by a small step (a result remembered from the first must not answer for the second)
+        k0 = rng.choice(list(comp))
+        u, v = rng.choice(SIBLING_COUNTS)
+        for val in (u, v):
+            sib = dict(comp)
+            sib[k0] = val
+            if sep != '' and not any(x != 0 for x in sib.values()):
+                continue
+            chem_clauses(ctx, st, pt, rng, elements, isotopes, fixed=(sib, kinds | {'sibling'}, sep, hill))
 
 
 def glycan_clauses(ctx, st, pt, rng):
@@ -268,6 +286,7 @@ def glycan_clauses(ctx, st, pt, rng):
 def run(ctx):
     st = State()
     pt = install(ctx, st)
+    ctx.enable_disturb(pt, 0.01)     # other legitimate library calls interleaved between cases (vf.gen.disturb)
     elements, isotopes = table_keys()
     ctx.extra['table_elements'] = len(elements) if ctx.shard == 0 else 0
     ctx.extra['table_isotope_keys'] = len(isotopes) if ctx.shard == 0 else 0
